@@ -26,6 +26,7 @@ package main
 import (
 	"fmt"
 	"go/ast"
+	"go/constant"
 	"go/token"
 	"go/types"
 	"os"
@@ -564,21 +565,25 @@ func (nz *normaliser) normaliseUnits(all []*normUnit) []string {
 			// `for i := 0; i < len(S); i++ { x := S[i]; … }` is written as `for i, x := range S { … }`
 			var canon func(list []ast.Stmt) []ast.Stmt
 			canon = func(list []ast.Stmt) []ast.Stmt {
-				for k, s := range list {
+				var out []ast.Stmt
+				for _, s := range list {
 					if fs, ok := s.(*ast.ForStmt); ok {
 						if rs := indexedRangeOf(info, fs); rs != nil {
-							list[k] = rs
 							changed = true
 							s = rs
 						} else if rot := rotatedLoopOf(info, fs); rot != nil {
-							list[k] = rot
 							changed = true
 							s = rot
+						} else if init, dw := doWhileOf(info, fs); dw != nil {
+							changed = true
+							out = append(out, init)
+							s = dw
 						}
 					}
 					nz.rewriteNested(s, canon)
+					out = append(out, s)
 				}
-				return list
+				return out
 			}
 			clone.Body.List = canon(clone.Body.List)
 		}
@@ -586,6 +591,33 @@ func (nz *normaliser) normaliseUnits(all []*normUnit) []string {
 		rewrite = func(list []ast.Stmt) []ast.Stmt {
 			var out []ast.Stmt
 			for _, s := range list {
+				// `for H(a) ⋈ v { body }` (no init, no post, no && / ||): the helper runs before every test —
+				// `for { if !(H(a) ⋈ v) { break }; body }`, where the if-condition form is inlined below
+				if fs, ok := s.(*ast.ForStmt); ok && fs.Init == nil && fs.Post == nil && fs.Cond != nil {
+					hasHelper, shortCircuit := false, false
+					ast.Inspect(fs.Cond, func(m ast.Node) bool {
+						switch x := m.(type) {
+						case *ast.CallExpr:
+							if fn := callee(info, x); fn != nil && plan[fn] != nil {
+								hasHelper = true
+							}
+						case *ast.BinaryExpr:
+							if x.Op == token.LAND || x.Op == token.LOR {
+								shortCircuit = true
+							}
+						}
+						return true
+					})
+					if hasHelper && !shortCircuit {
+						neg := &ast.UnaryExpr{OpPos: fs.Cond.Pos(), Op: token.NOT, X: &ast.ParenExpr{Lparen: fs.Cond.Pos(), X: fs.Cond, Rparen: fs.Cond.End()}}
+						info.Types[neg] = types.TypeAndValue{Type: types.Typ[types.Bool]}
+						info.Types[neg.X] = types.TypeAndValue{Type: types.Typ[types.Bool]}
+						guard := &ast.IfStmt{If: fs.Cond.Pos(), Cond: neg, Body: &ast.BlockStmt{Lbrace: fs.Cond.Pos(), List: []ast.Stmt{&ast.BranchStmt{TokPos: fs.Cond.Pos(), Tok: token.BREAK}}, Rbrace: fs.Cond.End()}}
+						fs.Body.List = append([]ast.Stmt{guard}, fs.Body.List...)
+						fs.Cond = nil
+						changed = true
+					}
+				}
 				call := stmtCall(s)
 				var h *helperInfo
 				if call != nil {
@@ -594,6 +626,13 @@ func (nz *normaliser) normaliseUnits(all []*normUnit) []string {
 					}
 				}
 				if h == nil {
+					// `x = append(x, H(a…)...)` with H a collector (declares an empty slice, only appends to it, returns
+					// it): the helper's appends go straight into x
+					if fused, ok := nz.fuseCollector(p, info, s, plan, normalise, depth); ok {
+						changed = true
+						out = append(out, fused...)
+						continue
+					}
 					// a helper call used as an operand of the statement (`x = append(x, H(a))`, `return f(H(a))` is not
 					// touched): hoist it into a temporary first, when nothing else in the statement has side effects
 					if tmpAssign, ok := nz.hoistNestedCall(p, info, s, plan); ok {
@@ -736,6 +775,16 @@ func (nz *normaliser) rewriteNested(s ast.Stmt, rewrite func([]ast.Stmt) []ast.S
 		}
 	case *ast.LabeledStmt:
 		nz.rewriteNested(x.Stmt, rewrite)
+	case *ast.ExprStmt, *ast.AssignStmt, *ast.ReturnStmt, *ast.DeclStmt, *ast.GoStmt, *ast.DeferStmt:
+		// function literals among the operands (a comparator handed to sort.Slice, a callback): their bodies are
+		// statement lists like any other
+		ast.Inspect(s, func(m ast.Node) bool {
+			if fl, ok := m.(*ast.FuncLit); ok {
+				fl.Body.List = rewrite(fl.Body.List)
+				return false
+			}
+			return true
+		})
 	}
 }
 
@@ -1120,7 +1169,54 @@ func (nz *normaliser) hoistNestedCall(p *normUnit, info *types.Info, s ast.Stmt,
 	}
 	var target *ast.CallExpr
 	others := false
+	// the statement's own call (`f(a, H(x))`, `v := f(a, H(x))`) runs after all its arguments: when the helper call is
+	// one of its direct arguments, hoisting it keeps the order as long as the other arguments call nothing
+	top := stmtCall(s)
+	if _, isIf := s.(*ast.IfStmt); isIf {
+		top = nil
+	}
 	ast.Inspect(scope, func(m ast.Node) bool {
+		if m == ast.Node(top) && top != nil {
+			direct := false
+			for _, a := range top.Args {
+				if c, ok := unparen(a).(*ast.CallExpr); ok {
+					if fn := callee(info, c); fn != nil && plan[fn] != nil {
+						direct = true
+					}
+				}
+			}
+			if direct {
+				if fn := callee(info, top); fn == nil || plan[fn] == nil {
+					// inspect the arguments only
+					for _, a := range top.Args {
+						ast.Inspect(a, func(k ast.Node) bool {
+							switch y := k.(type) {
+							case *ast.FuncLit:
+								others = true
+								return false
+							case *ast.CallExpr:
+								if fn := callee(info, y); fn != nil && plan[fn] != nil {
+									if target != nil {
+										others = true
+									}
+									target = y
+									return true
+								}
+								if builtinName(info, y) != "" {
+									return true
+								}
+								if tv, ok := info.Types[y.Fun]; ok && tv.IsType() {
+									return true
+								}
+								others = true
+							}
+							return true
+						})
+					}
+					return false
+				}
+			}
+		}
 		switch x := m.(type) {
 		case *ast.FuncLit:
 			others = true
@@ -1158,6 +1254,9 @@ func (nz *normaliser) hoistNestedCall(p *normUnit, info *types.Info, s ast.Stmt,
 	for _, a := range target.Args {
 		ast.Inspect(a, func(m ast.Node) bool {
 			if c, ok := m.(*ast.CallExpr); ok && builtinName(info, c) == "" {
+				if tv, isT := info.Types[c.Fun]; isT && tv.IsType() {
+					return true // a conversion
+				}
 				argCalls = true
 			}
 			return true
@@ -1316,6 +1415,11 @@ func hasIndexedRange(info *types.Info, body *ast.BlockStmt) bool {
 		if fs, ok := m.(*ast.ForStmt); ok && (indexedRangeOf(info, fs) != nil || rotatedLoopOf(info, fs) != nil) {
 			found = true
 		}
+		if fs, ok := m.(*ast.ForStmt); ok && !found {
+			if _, dw := doWhileOf(info, fs); dw != nil {
+				found = true
+			}
+		}
 		return !found
 	})
 	return found
@@ -1358,4 +1462,236 @@ func rotatedLoopOf(info *types.Info, fs *ast.ForStmt) *ast.ForStmt {
 		Body: &ast.BlockStmt{Lbrace: fs.Cond.End(), List: []ast.Stmt{&ast.BranchStmt{TokPos: fs.Cond.End(), Tok: token.BREAK}}, Rbrace: fs.Cond.End()}}
 	list := append([]ast.Stmt{init, guard}, fs.Body.List...)
 	return &ast.ForStmt{For: fs.For, Body: &ast.BlockStmt{Lbrace: fs.Body.Lbrace, List: list, Rbrace: fs.Body.Rbrace}}
+}
+
+// fuseCollector: s is `x = append(x, H(a…)...)` where x is a plain variable and H is a planned helper of the shape
+//
+//	var v []T  |  v := []T{}  |  v := make([]T, 0)
+//	… (v occurs only as `v = append(v, …)`) …
+//	return v
+//
+// The helper's body is spliced in with v redirected to x and its empty initialisation dropped.
+func (nz *normaliser) fuseCollector(p *normUnit, info *types.Info, s ast.Stmt, plan map[*types.Func]*helperInfo,
+	normalise func(p *normUnit, fd *ast.FuncDecl, depth int) *ast.FuncDecl, depth int) ([]ast.Stmt, bool) {
+	as, ok := s.(*ast.AssignStmt)
+	if !ok || as.Tok != token.ASSIGN || len(as.Lhs) != 1 || len(as.Rhs) != 1 {
+		return nil, false
+	}
+	xid, ok := unparen(as.Lhs[0]).(*ast.Ident)
+	if !ok {
+		return nil, false
+	}
+	app, ok := unparen(as.Rhs[0]).(*ast.CallExpr)
+	if !ok || builtinName(info, app) != "append" || len(app.Args) != 2 || !app.Ellipsis.IsValid() || identObj(info, app.Args[0]) == nil || identObj(info, app.Args[0]) != identObj(info, xid) {
+		return nil, false
+	}
+	call, ok := unparen(app.Args[1]).(*ast.CallExpr)
+	if !ok {
+		return nil, false
+	}
+	fn := callee(info, call)
+	if fn == nil || plan[fn] == nil {
+		return nil, false
+	}
+	h := plan[fn]
+	hd := normalise(h.pkg, h.decl, depth+1)
+	hinfo := h.pkg.TypesInfo
+	if len(hd.Body.List) < 2 {
+		return nil, false
+	}
+	// the collector variable
+	var vobj types.Object
+	switch first := hd.Body.List[0].(type) {
+	case *ast.DeclStmt:
+		if gd, ok := first.Decl.(*ast.GenDecl); ok && len(gd.Specs) == 1 {
+			if vs, ok := gd.Specs[0].(*ast.ValueSpec); ok && len(vs.Names) == 1 && len(vs.Values) == 0 {
+				vobj = hinfo.Defs[vs.Names[0]]
+			}
+		}
+	case *ast.AssignStmt:
+		if first.Tok == token.DEFINE && len(first.Lhs) == 1 && len(first.Rhs) == 1 {
+			empty := false
+			switch e := unparen(first.Rhs[0]).(type) {
+			case *ast.CompositeLit:
+				empty = len(e.Elts) == 0
+			case *ast.CallExpr:
+				if builtinName(hinfo, e) == "make" && len(e.Args) == 2 {
+					if v, isC := constInt(hinfo, e.Args[1]); isC && v == 0 {
+						empty = true
+					}
+				}
+			}
+			if empty {
+				vobj = identObj(hinfo, first.Lhs[0])
+			}
+		}
+	}
+	if vobj == nil {
+		return nil, false
+	}
+	if _, isSlice := vobj.Type().Underlying().(*types.Slice); !isSlice {
+		return nil, false
+	}
+	last, ok := hd.Body.List[len(hd.Body.List)-1].(*ast.ReturnStmt)
+	if !ok || len(last.Results) != 1 || identObj(hinfo, last.Results[0]) != vobj || countReturns(hd.Body.List) != 1 {
+		return nil, false
+	}
+	// every other mention of v: `v = append(v, …)`
+	okUse := true
+	allowed := map[*ast.Ident]bool{}
+	for _, st := range hd.Body.List[1 : len(hd.Body.List)-1] {
+		ast.Inspect(st, func(m ast.Node) bool {
+			if a2, ok := m.(*ast.AssignStmt); ok && a2.Tok == token.ASSIGN && len(a2.Lhs) == 1 && len(a2.Rhs) == 1 && identObj(hinfo, a2.Lhs[0]) == vobj {
+				if c2, ok := unparen(a2.Rhs[0]).(*ast.CallExpr); ok && builtinName(hinfo, c2) == "append" && len(c2.Args) >= 2 && identObj(hinfo, c2.Args[0]) == vobj {
+					if l, ok := unparen(a2.Lhs[0]).(*ast.Ident); ok {
+						allowed[l] = true
+					}
+					if a, ok := unparen(c2.Args[0]).(*ast.Ident); ok {
+						allowed[a] = true
+					}
+				}
+			}
+			return true
+		})
+		ast.Inspect(st, func(m ast.Node) bool {
+			if id, ok := m.(*ast.Ident); ok && hinfo.Uses[id] == vobj && !allowed[id] {
+				okUse = false
+			}
+			return true
+		})
+	}
+	if !okUse {
+		return nil, false
+	}
+	// splice `x = H(a…)` (the result-variable unification makes v be x), then drop v's empty initialisation
+	lhs := cloneNode(info, xid).(ast.Expr)
+	synth := &ast.AssignStmt{Lhs: []ast.Expr{lhs}, TokPos: as.TokPos, Tok: token.ASSIGN, Rhs: []ast.Expr{call}}
+	spliced, ok := nz.splice(info, synth, call, h, hd)
+	if !ok {
+		return nil, false
+	}
+	xobj := identObj(info, xid)
+	var out []ast.Stmt
+	dropped := false
+	for _, st := range spliced {
+		if !dropped {
+			switch d := st.(type) {
+			case *ast.DeclStmt:
+				if gd, ok := d.Decl.(*ast.GenDecl); ok && len(gd.Specs) == 1 {
+					if vs, ok := gd.Specs[0].(*ast.ValueSpec); ok && len(vs.Names) == 1 && (info.Defs[vs.Names[0]] == xobj || info.Uses[vs.Names[0]] == xobj) {
+						dropped = true
+						continue
+					}
+				}
+			case *ast.AssignStmt:
+				if len(d.Lhs) == 1 && len(d.Rhs) == 1 && identObj(info, d.Lhs[0]) == xobj {
+					c2, isCall := unparen(d.Rhs[0]).(*ast.CallExpr)
+					if !isCall || builtinName(info, c2) == "make" {
+						dropped = true
+						continue
+					}
+				}
+			}
+		}
+		out = append(out, st)
+	}
+	if !dropped {
+		return nil, false
+	}
+	return out, true
+}
+
+// doWhileOf: `for v := c; cond(v); { body }` (no post statement) where the constant c satisfies cond and no
+// `continue` of the body targets the loop is `v := c; for { body; if !cond(v) { break } }` — the first test is known
+// to succeed and every later test at the head is the test at the end of the iteration before.
+func doWhileOf(info *types.Info, fs *ast.ForStmt) (ast.Stmt, *ast.ForStmt) {
+	if fs.Post != nil || fs.Cond == nil || fs.Init == nil {
+		return nil, nil
+	}
+	init, ok := fs.Init.(*ast.AssignStmt)
+	if !ok || init.Tok != token.DEFINE || len(init.Lhs) != 1 || len(init.Rhs) != 1 {
+		return nil, nil
+	}
+	v := identObj(info, init.Lhs[0])
+	c0 := constOf(info, init.Rhs[0])
+	if v == nil || c0 == nil {
+		return nil, nil
+	}
+	// cond(c0)
+	holds := false
+	switch cnd := unparen(fs.Cond).(type) {
+	case *ast.Ident:
+		holds = identObj(info, cnd) == v && c0.Kind() == constant.Bool && constant.BoolVal(c0)
+	case *ast.BinaryExpr:
+		x, y := cnd.X, cnd.Y
+		op := cnd.Op
+		if identObj(info, y) == v {
+			x, y = y, x
+			switch op {
+			case token.LSS:
+				op = token.GTR
+			case token.GTR:
+				op = token.LSS
+			case token.LEQ:
+				op = token.GEQ
+			case token.GEQ:
+				op = token.LEQ
+			}
+		}
+		c1 := constOf(info, y)
+		if identObj(info, x) == v && c1 != nil && (c0.Kind() == constant.Int || c0.Kind() == constant.Bool) && c1.Kind() == c0.Kind() {
+			switch op {
+			case token.EQL, token.NEQ, token.LSS, token.GTR, token.LEQ, token.GEQ:
+				if c0.Kind() == constant.Bool && op != token.EQL && op != token.NEQ {
+					return nil, nil
+				}
+				holds = constant.Compare(c0, op, c1)
+			}
+		}
+	}
+	if !holds {
+		return nil, nil
+	}
+	// no continue that belongs to this loop
+	bad := false
+	var walk func(n ast.Node, depth int)
+	walk = func(n ast.Node, depth int) {
+		ast.Inspect(n, func(m ast.Node) bool {
+			if bad || m == nil {
+				return false
+			}
+			switch x := m.(type) {
+			case *ast.FuncLit:
+				return false
+			case *ast.ForStmt:
+				if m != n {
+					walk(x.Body, depth+1)
+					return false
+				}
+			case *ast.RangeStmt:
+				if m != n {
+					walk(x.Body, depth+1)
+					return false
+				}
+			case *ast.BranchStmt:
+				if x.Tok == token.CONTINUE && (depth == 0 || x.Label != nil) {
+					bad = true
+				}
+				if x.Tok == token.GOTO {
+					bad = true
+				}
+			}
+			return true
+		})
+	}
+	walk(fs.Body, 0)
+	if bad {
+		return nil, nil
+	}
+	neg := &ast.UnaryExpr{OpPos: fs.Cond.Pos(), Op: token.NOT, X: &ast.ParenExpr{Lparen: fs.Cond.Pos(), X: fs.Cond, Rparen: fs.Cond.End()}}
+	info.Types[neg] = types.TypeAndValue{Type: types.Typ[types.Bool]}
+	info.Types[neg.X] = types.TypeAndValue{Type: types.Typ[types.Bool]}
+	guard := &ast.IfStmt{If: fs.Cond.Pos(), Cond: neg, Body: &ast.BlockStmt{Lbrace: fs.Cond.Pos(), List: []ast.Stmt{&ast.BranchStmt{TokPos: fs.Cond.Pos(), Tok: token.BREAK}}, Rbrace: fs.Cond.End()}}
+	body := &ast.BlockStmt{Lbrace: fs.Body.Lbrace, List: append(append([]ast.Stmt{}, fs.Body.List...), guard), Rbrace: fs.Body.Rbrace}
+	return init, &ast.ForStmt{For: fs.For, Body: body}
 }
